@@ -660,3 +660,154 @@ Proof.
   split; [exact abs_additive|]. split; [exact zo_additive|]. split; [exact zov_additive|].
   split; [exact disc_additive | exact zo_counts].
 Qed.
+
+(* ------------------------------------------------------------------------------------------ *)
+(* HingeLoss with several outputs: the gradient row built by the update loop is the derivative of the value *)
+Definition hinge_mc_step (c : nat) (p : vec) (g : vec) (o : nat) : vec :=
+  if Qlt_le_dec 0 (hinge_mc_s c p o) then let g1 := upd o (1#2) g in upd c (nth c g1 0 - (1#2)) g1 else g.
+Definition hinge_mc_coef (c : nat) (p v : vec) (o : nat) : Q :=
+  if Qlt_le_dec 0 (hinge_mc_s c p o) then (1#2) * (nth o v 0 - nth c v 0) else 0.
+
+Lemma hinge_mc_fold_dot c p dim v : (c < dim)%nat -> length v = dim ->
+  forall os g, NoDup os -> (forall o, In o os -> (o < dim)%nat /\ o <> c /\ nth o g 0 = 0) -> length g = dim ->
+  dot (fold_left (hinge_mc_step c p) os g) v == dot g v + qsum (map (hinge_mc_coef c p v) os).
+Proof.
+  intros Hc Hv. induction os as [|o os IH]; intros g Hnd Hos Hg; cbn [fold_left map]; rewrite ?qsum_cons.
+  - simpl. ring.
+  - inversion Hnd as [|? ? Hnotin Hnd']; subst.
+    destruct (Hos o (or_introl eq_refl)) as (Ho & Hoc & Hz).
+    unfold hinge_mc_step at 2, hinge_mc_coef at 1. destruct (Qlt_le_dec 0 (hinge_mc_s c p o)).
+    + cbv zeta. rewrite IH.
+      * rewrite dot_upd by (rewrite ?upd_length; lia). rewrite dot_upd by lia. rewrite Hz. ring.
+      * exact Hnd'.
+      * intros o' Hin. destruct (Hos o' (or_intror Hin)) as (A & B & C). split; [exact A|]. split; [exact B|].
+        rewrite nth_upd_neq by (intro E; apply B; symmetry; exact E).
+        rewrite nth_upd_neq by (intro E; subst; contradiction). exact C.
+      * rewrite !upd_length. exact Hg.
+    + rewrite IH; [ring | exact Hnd' | | exact Hg].
+      intros o' Hin. apply Hos. right. exact Hin.
+Qed.
+
+Lemma others_spec c dim : NoDup (others c dim) /\ forall o, In o (others c dim) -> (o < dim)%nat /\ o <> c.
+Proof.
+  unfold others. split.
+  - apply NoDup_filter, seq_NoDup.
+  - intros o Hin. apply filter_In in Hin as [Hs Hb]. apply in_seq in Hs. split; [lia|].
+    intros ->. rewrite Nat.eqb_refl in Hb. discriminate.
+Qed.
+
+Lemma nth_repeat0 n o : nth o (repeat 0 n) 0 = 0.
+Proof. revert o; induction n as [|n IH]; intros [|o]; simpl; auto. Qed.
+
+Lemma dot_repeat0 : forall n v, dot (repeat 0 n) v == 0.
+Proof. induction n as [|n IH]; intros [|y v]; simpl; try reflexivity. rewrite IH. ring. Qed.
+
+Lemma hinge_mc_grad_dot c p dim v : (c < dim)%nat -> length v = dim ->
+  dot (hinge_mc_grad c p dim) v == qsum (map (hinge_mc_coef c p v) (others c dim)).
+Proof.
+  intros Hc Hv. unfold hinge_mc_grad. fold (hinge_mc_step c p).
+  destruct (others_spec c dim) as [Hnd Hin].
+  rewrite (hinge_mc_fold_dot c p dim v Hc Hv (others c dim) (repeat 0 dim) Hnd).
+  - rewrite dot_repeat0. ring.
+  - intros o Ho. destruct (Hin o Ho). split; [assumption|]. split; [assumption | apply nth_repeat0].
+  - apply repeat_length.
+Qed.
+
+Definition hinge_mc_same_side (c : nat) (p v : vec) (t : Q) (o : nat) : Prop :=
+  let a := 2 - nth c p 0 + nth o p 0 in
+  let a' := 2 - (nth c p 0 + t * nth c v 0) + (nth o p 0 + t * nth o v 0) in
+  (0 < a /\ 0 < a') \/ (a < 0 /\ a' < 0).
+
+Theorem hinge_mc_gradient c p v t dim : (dim =? 1)%nat = false -> (c < dim)%nat -> length p = dim -> length v = dim ->
+  (forall o, In o (others c dim) -> hinge_mc_same_side c p v t o) ->
+  hinge_eval dim [(c, vaxpy t v p)] - hinge_eval dim [(c, p)]
+  == t * dot (nth 0 (snd (hinge_evald dim [(c, p)])) []) v.
+Proof.
+  intros Hd Hc Hp Hv Hs. unfold hinge_eval, hinge_evald. rewrite Hd. cbn [map fst snd nth].
+  rewrite (hinge_mc_grad_dot c p dim v Hc Hv). rewrite !qsum_cons. cbn [qsum fold_right].
+  assert (E : qsum (map (hinge_mc_s c (vaxpy t v p)) (others c dim)) - qsum (map (hinge_mc_s c p) (others c dim))
+              == 2 * (t * qsum (map (hinge_mc_coef c p v) (others c dim)))).
+  { rewrite <- qsum_map_sub, <- !qsum_scale, !map_map. apply qsum_map_ext_in. intros o Ho.
+    specialize (Hs o Ho). unfold hinge_mc_same_side in Hs. cbv zeta in Hs.
+    unfold hinge_mc_coef, hinge_mc_s.
+    rewrite !nth_vaxpy by congruence.
+    set (pc := nth c p 0) in *. set (po := nth o p 0) in *. set (tc := t * nth c v 0) in *. set (to := t * nth o v 0) in *.
+    unfold Qmax0.
+    destruct (Qlt_le_dec 0 (2 - (pc + tc) + (po + to))), (Qlt_le_dec 0 (2 - pc + po));
+      try (destruct (Qlt_le_dec 0 (2 - pc + po)); [|exfalso; lra]);
+      try (destruct (Qlt_le_dec 0 0); [exfalso; lra|]);
+      subst tc to; try (exfalso; lra); try ring.
+    all: try (destruct (Qlt_le_dec 0 0); try ring; exfalso; lra). }
+  setoid_replace ((qsum (map (hinge_mc_s c (vaxpy t v p)) (others c dim)) + 0) / 2 - (qsum (map (hinge_mc_s c p) (others c dim)) + 0) / 2)
+    with ((qsum (map (hinge_mc_s c (vaxpy t v p)) (others c dim)) - qsum (map (hinge_mc_s c p) (others c dim))) / 2) by (unfold Qdiv; ring).
+  rewrite E. field.
+Qed.
+
+(* SquaredHingeLoss with several outputs *)
+Lemma Qmax0_pos x : 0 < x -> Qmax0 x == x.
+Proof. intros H. unfold Qmax0. destruct (Qlt_le_dec 0 x); [reflexivity | exfalso; lra]. Qed.
+Lemma Qmax0_nonpos x : x <= 0 -> Qmax0 x == 0.
+Proof. intros H. unfold Qmax0. destruct (Qlt_le_dec 0 x); [exfalso; lra | reflexivity]. Qed.
+
+Definition sqhinge_mc_step (c : nat) (p : vec) (g : vec) (o : nat) : vec :=
+  let s := hinge_mc_s c p o in
+  if Qlt_le_dec 0 s then let g1 := upd o (s * (1#4)) g in upd c (nth c g1 0 - s * (1#4)) g1 else g.
+Definition sqhinge_mc_coef (c : nat) (p v : vec) (o : nat) : Q :=
+  if Qlt_le_dec 0 (hinge_mc_s c p o) then hinge_mc_s c p o * (1#4) * (nth o v 0 - nth c v 0) else 0.
+Definition sqhinge_mc_rem (c : nat) (p v : vec) (o : nat) : Q :=
+  if Qlt_le_dec 0 (hinge_mc_s c p o) then (1#8) * ((nth o v 0 - nth c v 0) * (nth o v 0 - nth c v 0)) else 0.
+
+Lemma sqhinge_mc_fold_dot c p dim v : (c < dim)%nat -> length v = dim ->
+  forall os g, NoDup os -> (forall o, In o os -> (o < dim)%nat /\ o <> c /\ nth o g 0 = 0) -> length g = dim ->
+  dot (fold_left (sqhinge_mc_step c p) os g) v == dot g v + qsum (map (sqhinge_mc_coef c p v) os).
+Proof.
+  intros Hc Hv. induction os as [|o os IH]; intros g Hnd Hos Hg; cbn [fold_left map]; rewrite ?qsum_cons.
+  - simpl. ring.
+  - inversion Hnd as [|? ? Hnotin Hnd']; subst.
+    destruct (Hos o (or_introl eq_refl)) as (Ho & Hoc & Hz).
+    unfold sqhinge_mc_step at 2, sqhinge_mc_coef at 1. cbv zeta. destruct (Qlt_le_dec 0 (hinge_mc_s c p o)).
+    + rewrite IH.
+      * rewrite dot_upd by (rewrite ?upd_length; lia). rewrite dot_upd by lia. rewrite Hz. ring.
+      * exact Hnd'.
+      * intros o' Hin. destruct (Hos o' (or_intror Hin)) as (A & B & C). split; [exact A|]. split; [exact B|].
+        rewrite nth_upd_neq by (intro E; apply B; symmetry; exact E).
+        rewrite nth_upd_neq by (intro E; subst; contradiction). exact C.
+      * rewrite !upd_length. exact Hg.
+    + rewrite IH; [ring | exact Hnd' | | exact Hg].
+      intros o' Hin. apply Hos. right. exact Hin.
+Qed.
+
+Lemma sqhinge_mc_grad_dot c p dim v : (c < dim)%nat -> length v = dim ->
+  dot (sqhinge_mc_grad c p dim) v == qsum (map (sqhinge_mc_coef c p v) (others c dim)).
+Proof.
+  intros Hc Hv. unfold sqhinge_mc_grad. fold (sqhinge_mc_step c p).
+  destruct (others_spec c dim) as [Hnd Hin].
+  rewrite (sqhinge_mc_fold_dot c p dim v Hc Hv (others c dim) (repeat 0 dim) Hnd).
+  - rewrite dot_repeat0. ring.
+  - intros o Ho. destruct (Hin o Ho). split; [assumption|]. split; [assumption | apply nth_repeat0].
+  - apply repeat_length.
+Qed.
+
+Theorem sqhinge_mc_gradient c p v t dim : (dim =? 1)%nat = false -> (c < dim)%nat -> length p = dim -> length v = dim ->
+  (forall o, In o (others c dim) -> hinge_mc_same_side c p v t o) ->
+  sqhinge_eval dim [(c, vaxpy t v p)] - sqhinge_eval dim [(c, p)]
+  == t * (dot (nth 0 (snd (sqhinge_evald dim [(c, p)])) []) v + t * qsum (map (sqhinge_mc_rem c p v) (others c dim))).
+Proof.
+  intros Hd Hc Hp Hv Hs. unfold sqhinge_eval, sqhinge_evald. rewrite Hd. cbn [map fst snd nth].
+  rewrite (sqhinge_mc_grad_dot c p dim v Hc Hv). rewrite !qsum_cons. cbn [qsum fold_right].
+  assert (E : qsum (map (fun o => sqr (hinge_mc_s c (vaxpy t v p) o)) (others c dim)) - qsum (map (fun o => sqr (hinge_mc_s c p o)) (others c dim))
+              == 8 * (t * (qsum (map (sqhinge_mc_coef c p v) (others c dim)) + t * qsum (map (sqhinge_mc_rem c p v) (others c dim))))).
+  { rewrite <- qsum_map_sub. rewrite <- (qsum_lin t). rewrite <- qsum_scale, map_map. apply qsum_map_ext_in. intros o Ho.
+    specialize (Hs o Ho). unfold hinge_mc_same_side in Hs. cbv zeta in Hs.
+    unfold sqhinge_mc_coef, sqhinge_mc_rem, hinge_mc_s, sqr.
+    rewrite !nth_vaxpy by congruence.
+    set (pc := nth c p 0) in *. set (po := nth o p 0) in *. set (vc := nth c v 0) in *. set (vo := nth o v 0) in *.
+    destruct Hs as [[H1 H2]|[H1 H2]].
+    - rewrite (Qmax0_pos _ H1), (Qmax0_pos _ H2). destruct (Qlt_le_dec 0 (2 - pc + po)); [ring | exfalso; lra].
+    - rewrite (Qmax0_nonpos (2 - pc + po)), (Qmax0_nonpos (2 - (pc + t * vc) + (po + t * vo))) by lra.
+      destruct (Qlt_le_dec 0 0); [exfalso; lra | ring]. }
+  setoid_replace ((qsum (map (fun o => sqr (hinge_mc_s c (vaxpy t v p) o)) (others c dim)) + 0) / 4 / 2
+                  - (qsum (map (fun o => sqr (hinge_mc_s c p o)) (others c dim)) + 0) / 4 / 2)
+    with ((qsum (map (fun o => sqr (hinge_mc_s c (vaxpy t v p) o)) (others c dim)) - qsum (map (fun o => sqr (hinge_mc_s c p o)) (others c dim))) / 8) by (unfold Qdiv; field).
+  rewrite E. field.
+Qed.
